@@ -132,7 +132,7 @@ var selectorConsts = map[string]cval{
 	"time.Second":      {i: 1000000000},
 	"time.Minute":      {i: 60000000000},
 	"time.Hour":        {i: 3600000000000},
-	"http.StatusOK": {i: 200}, "http.StatusBadRequest": {i: 400}, "http.StatusUnauthorized": {i: 401}, "http.StatusForbidden": {i: 403},
+	"http.StatusOK":    {i: 200}, "http.StatusBadRequest": {i: 400}, "http.StatusUnauthorized": {i: 401}, "http.StatusForbidden": {i: 403},
 	"http.StatusNotFound": {i: 404}, "http.StatusNotAcceptable": {i: 406}, "http.StatusInternalServerError": {i: 500},
 	"http.StatusBadGateway": {i: 502}, "http.StatusServiceUnavailable": {i: 503}, "http.StatusGatewayTimeout": {i: 504},
 	"http.StatusInsufficientStorage": {i: 507}, "http.StatusUnsupportedMediaType": {i: 415}, "http.StatusMultipleChoices": {i: 300},
